@@ -13,7 +13,7 @@ use proptest::prelude::*;
 use serde::{Deserialize, Serialize};
 use std::rc::Rc;
 
-pub const RULE: &str = "(1) every built-in (all names of get_built_in_function_idents() except print / time_now) applied to every argument tuple of a boundary pool (NaN, +-inf, +-0, 2^53, +-1e30, 1e15, fractions, negatives; empty / ASCII / non-ASCII / numeric-looking / unit strings; empty, NaN-containing, nested, string and 30-element mixed lists; records; well- and ill-typed lambdas of arity 0/1/2/rest; built-ins as values): exhaustive for 0, 1 and 2 arguments, a 14-value sub-pool for 3 arguments, random tuples for 3-5 arguments; (2) grammar-generated typed programs with ill-typed noise and JSON inputs incl. __blots_function objects whose source is generated, mutated, blank or garbage; (2b) sessions of separately parsed and evaluated texts sharing heap and bindings (REPL / wasm style) in which long, late-failing functions (defined in one text or arriving as JSON inputs, with non-ASCII text before the failing position) are called from short later texts; (3) token- and byte-level mutants of the repository's examples, benches and README code blocks; (4) random UTF-8 weighted to the grammar's alphabet, up to 4 KiB, bracket depth <= 64. Every stage runs on each: get_pairs, AST conversion with and without comments, evaluation of every statement, validate / serialise / stringify of every result and binding, Display of every error plus span-inside-own-source, format_expr at four widths, the WASM formatting driver, expr_to_source, and for 2% the real CLI (file, -i). Violation = panic, abort, signal, exit 101, or an error span outside its text. Non-trivial = the case reached evaluation or is an enumerated built-in call; distinct by input text.";
+pub const RULE: &str = "(1) every built-in (all names of get_built_in_function_idents() except print / time_now) applied to every argument tuple of a boundary pool (NaN, +-inf, +-0, 2^53, +-1e30, 1e15, fractions, negatives; empty / ASCII / non-ASCII / numeric-looking / unit strings; empty, NaN-containing, nested, string and 30-element mixed lists; records; well- and ill-typed lambdas of arity 0/1/2/rest; built-ins as values): exhaustive for 0, 1 and 2 arguments, a 14-value sub-pool for 3 arguments, random tuples for 3-5 arguments; (2) grammar-generated typed programs with ill-typed noise and JSON inputs incl. __blots_function objects whose source is generated, mutated, blank or garbage; (2b) sessions of separately parsed and evaluated texts sharing heap and bindings (REPL / wasm style) in which long, late-failing functions (defined in one text or arriving as JSON inputs, with non-ASCII text before the failing position) are called from short later texts; (3b) each nesting construct (curried lambdas, applied lambdas, conditionals, lists, records, calls, parenthesised operators, do-blocks, via-lambdas, commented lists under lambdas, negations) nested 1..48 deep around a short and an over-long payload; (3) token- and byte-level mutants of the repository's examples, benches and README code blocks; (4) random UTF-8 weighted to the grammar's alphabet, up to 4 KiB, bracket depth <= 64. Every stage runs on each: get_pairs, AST conversion with and without comments, evaluation of every statement, validate / serialise / stringify of every result and binding, Display of every error plus span-inside-own-source, format_expr at four widths, the WASM formatting driver, expr_to_source, and for 2% the real CLI (file, -i). Violation = panic, abort, signal, exit 101, or an error span outside its text. Non-trivial = the case reached evaluation or is an enumerated built-in call; distinct by input text.";
 pub const ASSUMPTIONS: &[&str] = &[
     "resource exhaustion is not a crash: range spans in (2*10^6, 2^32], error-swallowing recursive sort_by callbacks and unbounded recursion through slow paths are excluded by construction or counted as inconclusive (allocation-failure marker, per-case watchdog)",
     "the WASM evaluate glue cannot run natively (JsValue); everything it calls in blots-core is covered",
@@ -436,6 +436,7 @@ const NOISE: &[&str] = &[
     "((a?, b) => b)(1)", "((...r, x) => x)(1)", "((a, ...r, b?) => b)(1)", "((a?, b) => b)()", "[1] via ((i?, x) => x)",
     "\"str\"", "null", "[]", "{}", "inputs.f", "#f", "inputs.f(2)", "#f(1, 2, 3)", "(x => x.q)(1)", "1 / 0", "0 / 0", "-inf", "[1, \"a\"]", "nope_undefined", "{a: 1}.a.b",
     "median([0/0, 1])", "percentile([], 50)", "chunk([1], 0.5)", "slice(\"héllo\", 1, 2)", "range(-1e30, 1e30)", "sort(range(25) via (i => if i % 2 == 0 then i else \"s\"))",
+    "(() => zz = n1 + 1)()", "[1] via (q => (() => ww = q)())", "{go: () => (cc = l1)}.go()", "(() => do {\n  return n1\n})()",
     "(10 ^ 12)!", "18446744073709551616!", "round(1.5, 1e30)", "format(\"{} {} {}\", 1)", "split(\"\", \"\")", "to_number(\"1e999\")", "convert(1, \"c\", \"C\")", "head(\"\")", "tail(\"é\")",
 ];
 
@@ -656,6 +657,31 @@ fn mutant(base: &str, other: &str, tape: &[u16]) -> Case {
     Case::Program { text, inputs, cli: t.chance(1, 50) }
 }
 
+
+/// One construct nested `depth` times (the statement bounds nesting at 64) around a payload that
+/// is short or too long for one line: every stage must finish on such inputs, too.
+fn deep_nesting(kind: usize, depth: usize, long: bool, call_it: bool) -> Case {
+    let payload = if long { (0..12).map(|i| format!("aaaaaaaa{}", i)).collect::<Vec<_>>().join(" + ") } else { "a0 + 1".to_string() };
+    let d = depth;
+    let rep = |f: &dyn Fn(usize) -> String| (0..d).map(f).collect::<String>();
+    let body = match kind {
+        0 => format!("{}{}", rep(&|i| format!("a{} => ", i)), payload),
+        1 => format!("{}{}{}", rep(&|i| format!("(a{} => ", i)), payload, rep(&|i| format!(")({})", i))),
+        2 => format!("{}{}", rep(&|i| format!("if c{} then {} else ", i, i)), payload),
+        3 => format!("{}{}{}", "[".repeat(d), payload, "]".repeat(d)),
+        4 => format!("{}{}{}", rep(&|i| format!("{{k{}: ", i)), payload, "}".repeat(d)),
+        5 => format!("{}{}{}", rep(&|i| format!("f{}(", i)), payload, ")".repeat(d)),
+        6 => format!("{}{}{}", "1 + (".repeat(d), payload, ")".repeat(d)),
+        7 => format!("{}{}{}", "do {\n return ".repeat(d), payload, "\n}".repeat(d)),
+        8 => format!("{}{}{}", rep(&|i| format!("l{} via (a{} => ", i, i)), payload, ")".repeat(d)),
+        9 => format!("{}{}{}", rep(&|i| format!("(a{}, b{}?) => [a{}, // c{}\n", i, i, i, i)), payload, "]".repeat(d)),
+        10 => format!("{}do {{\n  t = 1\n  return {}\n}}", rep(&|i| format!("a{} => ", i)), payload),
+        _ => format!("{}{}{}", "-(".repeat(d), payload, ")".repeat(d)),
+    };
+    let text = if call_it { format!("a0 = 1\nx = {}\nx", body) } else { format!("x = {}", body) };
+    Case::Program { text, inputs: "{}".into(), cli: false }
+}
+
 fn raw_text(tape: &[u16]) -> Case {
     let mut t = Tape::new(tape);
     let inputs = inputs_json(&mut t);
@@ -716,6 +742,16 @@ pub fn run(ctx: &mut Ctx) {
             ctx.tier.pick(20_000, 400_000),
         );
     }
+    // (3b) one construct nested 1..48 deep (bracket-like kinds up to the 64 bound are covered by (4))
+    let mut deep = Vec::new();
+    for kind in 0..12usize {
+        for depth in [1usize, 2, 3, 5, 8, 12, 16, 20, 24, 32, 40, 48] {
+            for long in [false, true] {
+                deep.push(deep_nesting(kind, depth, long, depth % 2 == 0));
+            }
+        }
+    }
+    ctx.run_enum(&Pipeline, deep.into_iter(), false);
     // (4) raw random text
     ctx.run_random(&Pipeline, prop::collection::vec(any::<u16>(), 0..900).prop_map(|t| raw_text(&t)), ctx.tier.pick(20_000, 400_000));
 }
